@@ -172,6 +172,7 @@ def Clause.text : Clause → String
   | .afterPurgedNothing => "after_refines_spec: the purge error although no payload lies after the index (nothing can have been evicted)"
   | .bytesBound => "bytes_bound: retained bytes exceed max by more than the latest item"
   | .badStat => "bad-stat"
+  | .accounting => "accounting: the store's byte count (nBytes, which drives eviction) differs from the bytes of the data it retains (the store's own validate check: sizes don't add up)"
   | .concurrent => "concurrent use: nBytes differs from the retained data, or a stream only one goroutine appends to was not replayed exactly (or the purge error) under concurrent use"
   | .panicked => "no_panic: an exported method of the store panicked"
   | .iterShort => "after_iteration_complete_or_error: the After iterator ended WITHOUT an error after yielding only a proper prefix of the payloads after the index (a partial sequence)"
